@@ -2,6 +2,7 @@ import DarkluaModel.Shared.AstSexp
 import DarkluaModel.C07.Model
 import DarkluaModel.C07.Cover
 import DarkluaModel.Rules.EvaluatorFloat
+import DarkluaModel.C06.CompoundGuardDef
 /-!
 Line-protocol handlers for properties C06 and C07 (the Luau-lowering rules).
 
@@ -9,6 +10,7 @@ Line-protocol handlers for properties C06 and C07 (the Luau-lowering rules).
 * `c06.rule <rule-name x-hex> <block>` → the transformed block (`remove_if_expression` consults the
   Lean model of the static evaluator, `Rules/Evaluator.lean`; an optional third argument is ignored).
 * `c06.all <block> [(<expr>*)]` → all nine rules in the order of `C07.lowerAll`
+* `c06.guard <block>` → the decidable guard of the whole-rule theorem `compound_partial` (`Compound.gB`)
 * `c06.census <name> <block>` → the feature census (`<name>` = a rule name, or `luau` for all)
 * `c06.wf <block>` → `true`/`false`: the tree is one darklua's AST can express
 * `c06.fuelok <block>` → `true`/`false`: the fuel hypothesis `ifFuelOk` of `census_zero_remove_if_expression`
@@ -142,6 +144,11 @@ def handle (op : String) (args : List String) : String :=
     -- the decidable fuel hypothesis of `census_zero_remove_if_expression`
     match Block.ofSexp? block with
     | some b => toString (decide (C07.kB { ifx := 13 } b + 1 ≤ Visitor.fuelFor b))
+    | none => "bad-request"
+  | "guard", some [block] =>
+    -- the decidable guard of `compound_partial` (`Compound.gB_sound`)
+    match Block.ofSexp? block with
+    | some b => toString (Compound.gB b)
     | none => "bad-request"
   | "hyp", some [name, block] =>
     match nameOfSexp? name, Block.ofSexp? block with
